@@ -82,11 +82,32 @@ def render_flowir(case):
     if case.get("order") == "rev":
         out.reverse()
     variables = {"default": {"global": dict(GLOBAL_VARS)}}
-    sv = case.get("sv") or [0, 2]
-    stages = {s: stage_scope(sv[s]) for s in (0, 1) if sv[s] > 0 and any(c["s"] == s for c in comps)}
+    sv = list(case.get("sv") or [0, 2]) + [0, 0, 0, 0]          # <<v0, v1, platform, other-global, other-stage0, other-stage1>>
+    has = {s: any(c["s"] == s for c in comps) for s in (0, 1)}
+    stages = {s: stage_scope(sv[s]) for s in (0, 1) if sv[s] > 0 and has[s]}
     if stages:
         variables["default"]["stages"] = stages
-    return {"variables": variables, "components": out}
+    doc = {"variables": variables, "components": out}
+    # what platform "other" defines is in the document whatever platform is loaded (spec: decoys on the default platform)
+    other = {}
+    if sv[3] > 0:
+        other["global"] = {"rg": sv[3], "rs": sv[3], "rc": sv[3], "ag": _ag(sv[3])}
+    ostages = {s: stage_scope(sv[4 + s]) for s in (0, 1) if sv[4 + s] > 0 and has[s]}
+    if ostages:
+        other["stages"] = ostages
+    if other or sv[2] == 1:
+        doc["platforms"] = ["default", OTHER_PLATFORM]
+        if other:
+            variables[OTHER_PLATFORM] = other
+    return doc
+
+
+OTHER_PLATFORM = "other"
+
+
+def case_platform(case):
+    sv = case.get("sv") or []
+    return OTHER_PLATFORM if len(sv) > 2 and sv[2] == 1 else None
 
 
 # ---------------------------------------------------------------------------------------------------------------------
@@ -119,11 +140,11 @@ def _err(e):
     return {"error": type(e).__name__, "msg": str(e)[:400], "mro": [k.__name__ for k in type(e).__mro__]}
 
 
-def run_graph(flowir):
-    """WorkflowGraph.graphFromFlowIR(flowir, {}, primitive=False) -> projection"""
+def run_graph(flowir, platform=None):
+    """WorkflowGraph.graphFromFlowIR(flowir, {}, platform=..., primitive=False) -> projection"""
     import experiment.model.graph as G
     try:
-        wg = G.WorkflowGraph.graphFromFlowIR(copy.deepcopy(flowir), {}, primitive=False)
+        wg = G.WorkflowGraph.graphFromFlowIR(copy.deepcopy(flowir), {}, platform=platform, primitive=False)
         g = wg.graph
         nodes = {}
         for n in g.nodes:
@@ -137,12 +158,13 @@ def run_graph(flowir):
         return _err(e)
 
 
-def run_concrete(flowir):
-    """FlowIRConcrete(flowir).replicate() -> projection (no graph: no preds; references are not made absolute)"""
+def run_concrete(flowir, platform=None):
+    """FlowIRConcrete(flowir, platform).replicate(platform=...) -> projection (no graph: no preds; references stay as written)"""
     import experiment.model.frontends.flowir as FL
     try:
-        conc = FL.FlowIRConcrete(copy.deepcopy(flowir), FL.FlowIR.LabelDefault, {})
-        rep = conc.replicate(ignore_errors=True)      # as FlowIRExperimentConfiguration.replicate does
+        platform = platform or FL.FlowIR.LabelDefault
+        conc = FL.FlowIRConcrete(copy.deepcopy(flowir), platform, {})
+        rep = conc.replicate(platform=platform, ignore_errors=True)      # as FlowIRExperimentConfiguration.replicate does
         nodes = {}
         dup = []
         for c in rep["components"]:
@@ -162,7 +184,7 @@ class _Hang(Exception):
     pass
 
 
-def _guarded(fn, flowir, timeout=60):
+def _guarded(fn, flowir, platform=None, timeout=60):
     """Run one load of the real code: any exception (also a hang, a RecursionError, ...) becomes a result, not a crash."""
     import signal
 
@@ -171,7 +193,7 @@ def _guarded(fn, flowir, timeout=60):
     old = signal.signal(signal.SIGALRM, on_alarm)
     signal.alarm(timeout)
     try:
-        return fn(flowir)
+        return fn(flowir, platform)
     except BaseException as e:          # run_* catch Exception themselves; this is the alarm / SystemExit / KeyboardInterrupt net
         if isinstance(e, KeyboardInterrupt):
             raise
@@ -187,9 +209,9 @@ def exec_case(args):
     flowir = render_flowir(case)
     res = {}
     if "graph" in paths:
-        res["graph"] = _guarded(run_graph, flowir)
+        res["graph"] = _guarded(run_graph, flowir, case_platform(case))
     if "concrete" in paths:
-        res["concrete"] = _guarded(run_concrete, flowir)
+        res["concrete"] = _guarded(run_concrete, flowir, case_platform(case))
     return res
 
 
